@@ -1,1 +1,53 @@
 // hooks for tc_parse_tag (included into the repo crate under cfg(any(kani, glass_easel_verif)))
+use super::*;
+use crate::parse::expr::Expression;
+
+fn collect_expr(e: &Expression, out: &mut Vec<(u32, u32, u32, u32, String)>) {
+    if let Expression::LitStr { value, location } = e {
+        out.push((location.start.line, location.start.utf16_col, location.end.line, location.end.utf16_col, value.to_string()));
+    }
+    for sub in e.sub_expressions() {
+        collect_expr(sub, out);
+    }
+}
+
+fn collect_value(v: &Value, out: &mut Vec<(u32, u32, u32, u32, String)>, static_too: bool) {
+    match v {
+        Value::Static { value, location } => {
+            if static_too {
+                out.push((location.start.line, location.start.utf16_col, location.end.line, location.end.utf16_col, value.to_string()));
+            }
+        }
+        Value::Dynamic { expression, .. } => collect_expr(expression, out),
+    }
+}
+
+fn collect_nodes(nodes: &[Node], out: &mut Vec<(u32, u32, u32, u32, String)>) {
+    for n in nodes {
+        match n {
+            Node::Text(v) => collect_value(v, out, true),
+            Node::Element(e) => match &e.kind {
+                ElementKind::Normal { attributes, children, .. } => {
+                    for a in attributes {
+                        if let Some(v) = &a.value {
+                            collect_value(v, out, true);
+                        }
+                    }
+                    collect_nodes(children, out);
+                }
+                ElementKind::Pure { children, .. } | ElementKind::For { children, .. } => collect_nodes(children, out),
+                _ => {}
+            },
+            _ => {}
+        }
+    }
+}
+
+/// Every static string piece of the text nodes and plain attribute values of a template (string literals inside bindings included),
+/// with the location the parser recorded for it: (start line, start col, end line, end col, value).
+pub fn text_locations(src: &str) -> Vec<(u32, u32, u32, u32, String)> {
+    let (t, _) = crate::parse::parse("a", src);
+    let mut out = vec![];
+    collect_nodes(&t.content, &mut out);
+    out
+}
